@@ -9,7 +9,7 @@ Binary/StringDataEncoding._calculate_size).
 """
 import itertools
 
-from vmon import build, ir, ref, render
+from vmon import build, ir, ref, render, synth
 from vmon.libutil import monitored, xtce_element
 
 LEVEL = "exploration"
@@ -34,26 +34,12 @@ ASSUMPTIONS = ["cases where the model has no defined truth value (literal not co
 SPELLINGS = list(ir.OPS)
 
 
-def mkparam(kind, value, raw):
-    from space_packet_parser import common
-    cls = {"int": common.IntParameter, "float": common.FloatParameter, "str": common.StrParameter,
-           "bool": common.BoolParameter, "bytes": common.BinaryParameter}[kind]
-    return cls(value, raw)
-
-
 def packet_of(assign):
-    """assign: name -> (kind, value, raw) ; returns (library packet, model env)"""
-    from space_packet_parser import packets
-    pkt = packets.CCSDSPacket()
-    env = {}
-    for name, (kind, value, raw) in assign.items():
-        pkt[name] = mkparam(kind, value, raw)
-        env[name] = ref.Val(value, raw, kind)
+    pkt, env, _ = synth.packet_of(assign)
     return pkt, env
 
 
-def kind_of(x):
-    return "bool" if isinstance(x, bool) else type(x).__name__
+kind_of = synth.kind_of
 
 
 def falsy(x):
